@@ -140,6 +140,93 @@ Proof.
       * unfold ifs_rune, mem. simpl. rewrite N.eqb_refl. reflexivity.
 Qed.
 
+(* ---- "..." with list expansions inside ------------------------------------------------- *)
+Lemma result_item : forall d s l,
+  result (match d with DVal v => add_part s v | DList es => at_loop true es s end) l
+  = result s (item_syms d ++ l).
+Proof.
+  intros [v|es] s l.
+  - apply result_add_quoted.
+  - destruct es as [|e es]; simpl.
+    + reflexivity.
+    + rewrite result_at_loop_rest. rewrite result_add_quoted. rewrite <- app_assoc. reflexivity.
+Qed.
+
+Lemma result_dbl_loop : forall items s el ne l,
+  result (fst (fst (dbl_loop items s el ne))) l = result s (flat_map item_syms items ++ l).
+Proof.
+  induction items as [|d items IH]; intros s el ne l; simpl.
+  - reflexivity.
+  - destruct d as [v|es]; rewrite IH; rewrite <- app_assoc.
+    + apply (result_item (DVal v)).
+    + apply (result_item (DList es)).
+Qed.
+
+Lemma dbl_loop_flags : forall items s el ne,
+  snd (fst (dbl_loop items s el ne)) = el || existsb item_empty_list items /\
+  snd (dbl_loop items s el ne) = ne || negb (forallb item_empty items).
+Proof.
+  induction items as [|d items IH]; intros s el ne; simpl.
+  - rewrite !orb_false_r. split; reflexivity.
+  - destruct d as [v|es].
+    + destruct (IH (add_part s v) el (ne || str_nonempty v)) as [H1 H2]. rewrite H1, H2.
+      destruct v; destruct ne; destruct el; simpl;
+        destruct (existsb item_empty_list items); destruct (forallb item_empty items); split; reflexivity.
+    + destruct (IH (at_loop true es s) (el || match es with [] => true | _ => false end)
+                   (ne || match es with [] => false | _ => true end)) as [H1 H2]. rewrite H1, H2.
+      destruct es; destruct ne; destruct el; simpl;
+        destruct (existsb item_empty_list items); destruct (forallb item_empty items); split; reflexivity.
+Qed.
+
+(* when everything inside the quotes is empty, the loop only appends empty parts *)
+Lemma dbl_loop_all_empty : forall items s el ne, forallb item_empty items = true ->
+  let s' := fst (fst (dbl_loop items s el ne)) in
+  fields s' = fields s /\ wsd s' = wsd s /\
+  exists X, cur s' = cur s ++ X /\
+            length X = length (filter (fun d => negb (item_empty_list d)) items).
+Proof.
+  induction items as [|d items IH]; intros s el ne H; simpl.
+  - split; [reflexivity|]. split; [reflexivity|]. exists []. rewrite app_nil_r. split; reflexivity.
+  - simpl in H. apply andb_prop in H. destruct H as [Hd Hi].
+    destruct d as [v|es].
+    + destruct v; [|discriminate].
+      destruct (IH (add_part s []) el (ne || str_nonempty []) Hi) as (H1 & H2 & X & H3 & H4).
+      split; [exact H1|]. split; [exact H2|]. exists ([] :: X). simpl in *.
+      rewrite H3, <- app_assoc. split; [reflexivity|]. rewrite H4. reflexivity.
+    + destruct es; [|discriminate]. simpl.
+      destruct (IH s (el || true) (ne || false) Hi) as (H1 & H2 & X & H3 & H4).
+      split; [exact H1|]. split; [exact H2|]. exists X. split; assumption.
+Qed.
+
+Lemma firstn_len_app : forall {A} (a b : list A), firstn (length a) (a ++ b) = a.
+Proof. induction a; simpl; intros; [reflexivity|]. rewrite IHa. reflexivity. Qed.
+
+Lemma result_dbl_mix : forall items s l,
+  result (dbl_mix items s) l = result s (part_syms [] (PDblMix items) ++ l).
+Proof.
+  intros items s l. unfold dbl_mix. cbn [part_syms].
+  pose proof (result_dbl_loop items s false false) as Hres.
+  destruct (dbl_loop_flags items s false false) as [Hel Hne]. simpl in Hel, Hne.
+  destruct (dbl_loop items s false false) as [[s' el] ne] eqn:E. simpl in *.
+  unfold dbl_vanishes. subst el ne.
+  destruct (forallb item_empty items) eqn:Eall; simpl.
+  - pose proof (dbl_loop_all_empty items s false false Eall) as Hs. rewrite E in Hs. simpl in Hs.
+    destruct Hs as (H1 & H2 & X & H3 & H4).
+    destruct (existsb item_empty_list items) eqn:Eex; simpl.
+    + rewrite H1, H2, H3, firstn_len_app. destruct s. reflexivity.
+    + rewrite H3, app_length.
+      destruct items as [|d items].
+      * simpl in H4. destruct X; [|discriminate]. simpl. rewrite Nat.add_0_r, Nat.eqb_refl.
+        rewrite (result_add_quoted s' [] l). cbn [map app]. rewrite (Hres (Q :: l)). reflexivity.
+      * assert (Hpos : (0 < length X)%nat).
+        { rewrite H4. simpl in Eex. apply orb_false_elim in Eex. destruct Eex as [Ed _].
+          simpl. rewrite Ed. simpl. lia. }
+        destruct (Nat.eqb (length (cur s) + length X) (length (cur s))) eqn:En.
+        -- apply Nat.eqb_eq in En. lia.
+        -- apply Hres.
+  - rewrite andb_false_r. destruct items as [|d items]; [discriminate|]. apply Hres.
+Qed.
+
 (* scope of one part *)
 Definition part_ok (ifs : str) (p : part) : bool :=
   match p with
@@ -151,7 +238,7 @@ Definition part_ok (ifs : str) (p : part) : bool :=
 Lemma result_do_part : forall ifs i0 p s l, part_ok ifs p = true ->
   result (do_part ifs i0 p s) l = result s (part_syms ifs p ++ l).
 Proof.
-  intros ifs i0 p s l Hok. destruct p as [v|v|vs|v|es|es|es]; simpl.
+  intros ifs i0 p s l Hok. destruct p as [v|v|vs|v|es|es|es|items]; simpl.
   - destruct v as [|r v]; [discriminate|].
     destruct i0.
     + rewrite (result_add_chars (add_part s []) (r :: v) l) by discriminate.
@@ -174,6 +261,7 @@ Proof.
     + rewrite result_at_loop_rest. rewrite result_add_quoted. rewrite <- app_assoc. reflexivity.
   - apply result_add_quoted.
   - apply result_ulist_loop. destruct ifs; [discriminate|discriminate].
+  - apply result_dbl_mix.
 Qed.
 
 Lemma result_parts_loop : forall ifs ps i0 s l, forallb (part_ok ifs) ps = true ->
@@ -226,7 +314,7 @@ Proof.
   unfold spec_fields. destruct ps as [|p ps]; [congruence|].
   simpl in Hns. apply andb_prop in Hns. destruct Hns as [Hp Hps].
   simpl in Hok. unfold word_ok in Hok. simpl in Hok. apply andb_prop in Hok. destruct Hok as [Hokp _].
-  simpl. destruct p as [v|v|vs|v|es|es|es]; try discriminate; simpl.
+  simpl. destruct p as [v|v|vs|v|es|es|es|items]; try discriminate; simpl.
   - destruct v as [|r v]; [discriminate|]. simpl.
     rewrite sp_field_chars, sp_field_nosplit by assumption. reflexivity.
   - rewrite sp_field_chars, sp_field_nosplit by assumption. reflexivity.
@@ -265,6 +353,23 @@ Proof.
   assert (H: forall l f, sp_field f (at_syms (l ++ [last]) ++ map C post) = f :: l ++ [last ++ post]).
   { induction l as [|x l IH]; intros f; simpl; rewrite <- ?app_assoc; simpl.
     - rewrite sp_field_chars. simpl. rewrite sp_field_chars_nil. reflexivity.
+    - rewrite sp_field_chars. simpl. rewrite IH. reflexivity. }
+  rewrite H. reflexivity.
+Qed.
+
+Theorem quoted_at_siblings : forall oifs a b e es last,
+  word_fields oifs [PDblMix [DVal a; DList (e :: es ++ [last]); DVal b]] = (a ++ e) :: es ++ [last ++ b].
+Proof.
+  intros oifs a b e es last.
+  rewrite word_fields_spec by reflexivity.
+  unfold spec_fields. cbn [flatten flat_map part_syms]. rewrite app_nil_r.
+  replace (dbl_vanishes [DVal a; DList (e :: es ++ [last]); DVal b]) with false
+    by (unfold dbl_vanishes; simpl; reflexivity).
+  cbn [item_syms app sp_start]. rewrite sp_field_chars. cbn [app sp_field].
+  rewrite <- app_assoc. rewrite sp_field_chars.
+  assert (H: forall l f, sp_field f (at_syms (l ++ [last]) ++ Q :: map C b ++ []) = f :: l ++ [last ++ b]).
+  { induction l as [|x l IH]; intros f; simpl; rewrite <- ?app_assoc; simpl.
+    - rewrite sp_field_chars. simpl. rewrite app_nil_r. rewrite sp_field_chars_nil. reflexivity.
     - rewrite sp_field_chars. simpl. rewrite IH. reflexivity. }
   rewrite H. reflexivity.
 Qed.
@@ -451,9 +556,23 @@ Proof.
   destruct first; [reflexivity|apply wsd_flush].
 Qed.
 
+Lemma wsd_dbl_loop : forall items s el ne, wsd (fst (fst (dbl_loop items s el ne))) = wsd s.
+Proof.
+  induction items as [|d items IH]; intros s el ne; simpl; [reflexivity|].
+  destruct d as [v|es]; rewrite IH; [reflexivity|apply wsd_at_loop].
+Qed.
+
+Lemma wsd_dbl_mix : forall items s, wsd (dbl_mix items s) = wsd s.
+Proof.
+  intros items s. unfold dbl_mix. pose proof (wsd_dbl_loop items s false false) as H.
+  destruct (dbl_loop items s false false) as [[s' el] ne]. simpl in H.
+  destruct ne; [exact H|]. destruct el; [exact H|].
+  destruct (Nat.eqb (length (cur s')) (length (cur s))); exact H.
+Qed.
+
 Lemma wsd_do_part_nil : forall i0 p s, wsd (do_part [] i0 p s) = wsd s.
 Proof.
-  intros i0 p s. destruct p as [v|v|vs|v|es|es|es]; simpl.
+  intros i0 p s. destruct p as [v|v|vs|v|es|es|es|items]; simpl.
   - destruct i0; reflexivity.
   - reflexivity.
   - destruct vs; reflexivity.
@@ -461,6 +580,7 @@ Proof.
   - apply wsd_at_loop.
   - reflexivity.
   - apply wsd_ulist_loop_nil.
+  - apply wsd_dbl_mix.
 Qed.
 
 Lemma result_flush_bk : forall s l, wsd s = false -> result (flush s) l = result s (Bk :: l).
@@ -485,7 +605,7 @@ Qed.
 Lemma result_do_part_nil : forall i0 p s l, lit_nonempty p = true -> wsd s = false ->
   result (do_part [] i0 p s) l = result s (part_syms [] p ++ l).
 Proof.
-  intros i0 p s l Hok Hw. destruct p as [v|v|vs|v|es|es|es];
+  intros i0 p s l Hok Hw. destruct p as [v|v|vs|v|es|es|es|items];
     try (apply result_do_part; destruct v; [discriminate|reflexivity]);
     try (apply result_do_part; reflexivity).
   simpl. apply result_ulist_loop_nil. exact Hw.
@@ -503,7 +623,7 @@ Qed.
 
 Lemma part_ok_nonempty_ifs : forall ifs p, ifs <> [] -> lit_nonempty p = true -> part_ok ifs p = true.
 Proof.
-  intros ifs p Hifs Hp. destruct p as [v|v|vs|v|es|es|es]; try reflexivity.
+  intros ifs p Hifs Hp. destruct p as [v|v|vs|v|es|es|es|items]; try reflexivity.
   - destruct v; [discriminate|reflexivity].
   - simpl. destruct ifs; [congruence|reflexivity].
 Qed.
